@@ -887,7 +887,25 @@ func genHistory(g *vf.Rng, o histOpts) (calls []hcall, base string, dist map[str
 			if o.dataBlocks {
 				n = []int{0, 1, 15, 16, 17, 31, 32, 33, 48, 255, 256, 1000, g.Intn(70)}[g.Intn(13)]
 			}
-			h.add(hcall{Op: "data", Data: g.Bytes(n)})
+			blk := g.Bytes(n)
+			h.add(hcall{Op: "data", Data: blk})
+			if g.Intn(4) == 0 {
+				// ... followed (at once, or after something else) by a block of the same length that common
+				// checksums cannot tell from it: tables keyed by a digest of the data must keep them apart
+				if n > 16 && g.Bool() {
+					blk = g.Bytes(16) // (listing rows are 16 bytes)
+					h.add(hcall{Op: "data", Data: blk})
+				}
+				if twin, _, ok := collidingBlock(g, blk); ok {
+					if g.Bool() {
+						if c, ok := h.randIns(4); ok {
+							h.add(c)
+						}
+					}
+					h.add(hcall{Op: "data", Data: twin})
+					h.dist["colliding-data-blocks"] = true
+				}
+			}
 		case k == 9 && o.listing:
 			n := g.Intn(30)
 			if g.Intn(10) == 0 {
